@@ -17,8 +17,8 @@ the code can read `sat[i]` for `i == num_rows` after `remove_row(j)` moved row `
 an earlier `j < i` with `sat[j] == sat[i]` when `i` is the last row, which the outer loop excludes,
 because `j` was the outer index before and would have removed it.)
 
-NOT modelled: `sorted` flags, `sort_rows()` at the head of `minimize` (the harness journals the source
-after the real `sort_rows()`), and the `std::length_error` of `Variable(j - 1)` for `j == 0` in
+`sort_rows()` at the head of `minimize` is in `PPLV/Conv/Sort.lean` (`minimizeUnsorted`).
+NOT modelled: `sorted` flags, and the `std::length_error` of `Variable(j - 1)` for `j == 0` in
 `gauss` / `back_substitute` (a pivot in column 0 means an inconsistent equality / a line with a
 divisor; `minimize` returns before `simplify` in that case).
 -/
